@@ -1,22 +1,16 @@
 SPECIFICATION Spec
 CONSTANTS
-  GenFiles = {1, 3, 4}
+  GenFiles = {2, 3}
   OtherFiles = {}
   Modes = {292, 420}
-  Variants = {0, 2}
+  Variants = {0}
   ChmodGate = TRUE
-  CopyGate = TRUE
+  CopyGate = FALSE
   Truncates = TRUE
   Privileged = FALSE
   OptsSel = "all"
   EnvOn = TRUE
   Record = FALSE
   MaxSteps = 0
-INVARIANT TypeOK
 INVARIANT RunEndOK
-INVARIANT NoTornFile
-INVARIANT IdleModes
-INVARIANT NeverDenied
-INVARIANT RefusedOnlyOnConflict
-INVARIANT UntouchedOthers
 CHECK_DEADLOCK FALSE
